@@ -46,6 +46,8 @@ struct St {
 static St st;
 static int counter = 0;
 
+static void clearSlots();
+
 static void reset()
 {
 	delete st.sbr;
@@ -59,6 +61,7 @@ static void reset()
 	if (st.peerfd >= 0) close(st.peerfd);
 	delete st.rs;
 	if (st.feedfd >= 0) close(st.feedfd);
+	clearSlots();
 	st = St();
 }
 
@@ -126,7 +129,15 @@ static int widthOf(const std::string& ty)
 	return 0;
 }
 
-template <class S, class T> static void wScalarT(S& s, U64 u) { T x = Conv<T>::of(u); s << x; }
+static std::string argFault; // set when a write modified the (const) argument it was given
+
+template <class S, class T> static void wScalarT(S& s, U64 u)
+{
+	T x = Conv<T>::of(u);
+	U64 before = Bits<T>::of(x);
+	s << (const T&)x;
+	if (Bits<T>::of(x) != before) argFault = "err scalar-argument-modified-by-the-write " + hexW(Bits<T>::of(x), (int)sizeof(T));
+}
 
 template <class S> static bool wScalar(S& s, const std::string& ty, U64 u)
 {
@@ -136,18 +147,35 @@ template <class S> static bool wScalar(S& s, const std::string& ty, U64 u)
 	return false;
 }
 
-template <class S, class T> static void wArrayT(S& s, const std::string& blob)
+template <class T> static void fillArray(Array<T>& a, const std::string& blob)
 {
 	int w = (int)sizeof(T);
 	int n = (int)(blob.size() / w);
-	Array<T> a(n);
+	a = Array<T>(n);
 	for (int i = 0; i < n; i++) {
 		U64 u = 0;
 		for (int j = 0; j < w; j++) u = (u << 8) | (unsigned char)blob[i * w + j];
 		T x = Conv<T>::of(u);
 		memcpy(&a[i], &x, sizeof(T));
 	}
-	s << a;
+}
+
+// the caller's array as the program sees it: each element's bit pattern, most significant digit first
+template <class T> static std::string dumpArray(const Array<T>& a)
+{
+	std::string d;
+	for (int i = 0; i < a.length(); i++) d += hexW(Bits<T>::of(a[i]), (int)sizeof(T));
+	return d.empty() ? "-" : d;
+}
+
+template <class S, class T> static void wArrayT(S& s, const std::string& blob)
+{
+	Array<T> a;
+	fillArray(a, blob);
+	std::string before = dumpArray(a);
+	s << (const Array<T>&)a;
+	std::string after = dumpArray(a);
+	if (after != before) argFault = "err array-argument-modified-by-the-write " + after;
 }
 
 template <class S> static bool wArray(S& s, const std::string& ty, const std::string& blob)
@@ -156,6 +184,45 @@ template <class S> static bool wArray(S& s, const std::string& ty, const std::st
 	FOR_TYPES(X)
 #undef X
 	return false;
+}
+
+// array variables: the same Array<T> object written several times
+enum { NSLOT = 4 };
+template <class T> struct Slot { static Array<T> a[NSLOT]; };
+template <class T> Array<T> Slot<T>::a[NSLOT];
+static std::string slotTy[NSLOT];
+
+static void clearSlots()
+{
+	for (int i = 0; i < NSLOT; i++) {
+#define X(n, T) Slot<T>::a[i] = Array<T>();
+		FOR_TYPES(X)
+#undef X
+		slotTy[i].clear();
+	}
+}
+
+static bool setSlot(int k, const std::string& ty, const std::string& blob)
+{
+#define X(n, T) if (ty == n) { fillArray(Slot<T>::a[k], blob); slotTy[k] = ty; return true; }
+	FOR_TYPES(X)
+#undef X
+	return false;
+}
+
+template <class S> static void wSlot(S& s, int k)
+{
+#define X(n, T) if (slotTy[k] == n) { s << (const Array<T>&)Slot<T>::a[k]; return; }
+	FOR_TYPES(X)
+#undef X
+}
+
+static std::string dumpSlot(int k)
+{
+#define X(n, T) if (slotTy[k] == n) return dumpArray(Slot<T>::a[k]);
+	FOR_TYPES(X)
+#undef X
+	return "?";
 }
 
 template <class R, class T> static std::string rScalarT(R& r) { T x; r >> x; return hexW(Bits<T>::of(x), (int)sizeof(T)); }
@@ -218,16 +285,29 @@ template <class S> static std::string writeOn(S& s, const Toks& t)
 	if (op == "w" && t.size() == 3) {
 		U64 u;
 		if (!widthOf(t[1]) || !parseU64(t[2], u) || t[2] == "-") return "bad-op";
+		argFault.clear();
 		wScalar(s, t[1], u);
-		return observe();
+		std::string o = observe();
+		return argFault.empty() ? o : argFault;
 	}
 	if (op == "wa" && t.size() == 3) {
 		int w = widthOf(t[1]);
 		if (!w || !validHex(t[2])) return "bad-op";
 		std::string blob = unhex(t[2]);
 		if (blob.size() % w) return "bad-op";
+		argFault.clear();
 		wArray(s, t[1], blob);
-		return observe();
+		std::string o = observe();
+		return argFault.empty() ? o : argFault;
+	}
+	if (op == "wv" && t.size() == 2) {
+		if (t[1].empty() || t[1].size() > 9) return "bad-op";
+		for (size_t i = 0; i < t[1].size(); i++) if (t[1][i] < '0' || t[1][i] > '9') return "bad-op";
+		int k = (int)(num(t[1]) % NSLOT);
+		if (slotTy[k].empty()) return "no-var";
+		wSlot(s, k);
+		std::string o = observe();
+		return o + " " + dumpSlot(k); // bytes appended, then the caller's array as it is now
 	}
 	if ((op == "wb" || op == "ws" || op == "wz") && t.size() == 2) {
 		if (!validHex(t[1])) return "bad-op";
@@ -312,7 +392,17 @@ static std::string step(const Toks& t)
 		return "ok " + str((long long)n);
 	}
 
-	bool isWrite = op == "endian" || op == "w" || op == "wa" || op == "wb" || op == "ws" || op == "wz";
+	if (op == "av" && t.size() == 4) {
+		if (t[1].empty() || t[1].size() > 9) return "bad-op";
+		for (size_t i = 0; i < t[1].size(); i++) if (t[1][i] < '0' || t[1][i] > '9') return "bad-op";
+		int w = widthOf(t[2]);
+		if (!w || !validHex(t[3])) return "bad-op";
+		std::string blob = unhex(t[3]);
+		if (blob.size() % w) return "bad-op";
+		setSlot((int)(num(t[1]) % NSLOT), t[2], blob);
+		return "ok";
+	}
+	bool isWrite = op == "wv" || op == "endian" || op == "w" || op == "wa" || op == "wb" || op == "ws" || op == "wz";
 	if (isWrite) {
 		if (st.reading) return "closed";
 		if (st.kind == K_SB) return writeOn(*st.sb, t);
